@@ -49,6 +49,116 @@ func closeOf(sv *scopeVar, per map[uintptr]int, root int, rootPtr uintptr) int {
 	return c
 }
 
+// closeInfo records when Close was invoked on / returned for scope objects.
+type closeInfo struct {
+	inv, ret map[uintptr]int // first invoke, first return per scope object
+	rootInv  int             // first invoke of the root's Close
+	rootRet  int             // first return of a root Close call
+	rootPtr  uintptr
+}
+
+func newCloseInfo(env *Env, ops []*OpRec) *closeInfo {
+	ci := &closeInfo{inv: map[uintptr]int{}, ret: map[uintptr]int{}, rootInv: inf, rootRet: inf, rootPtr: env.rootPtr()}
+	for _, r := range ops {
+		switch r.Op.K {
+		case "close":
+			if r.Ptr == 0 {
+				continue
+			}
+			if r.Ptr == ci.rootPtr {
+				ci.noteRoot(r)
+				continue
+			}
+			if old, ok := ci.inv[r.Ptr]; !ok || r.Inv < old {
+				ci.inv[r.Ptr] = r.Inv
+			}
+			if r.Ret != 0 {
+				if old, ok := ci.ret[r.Ptr]; !ok || r.Ret < old {
+					ci.ret[r.Ptr] = r.Ret
+				}
+			}
+		case "closeroot":
+			ci.noteRoot(r)
+		case "settle":
+			if r.Op.N == 1 || env.Prog.Cfg.IntervalNs <= 0 {
+				ci.noteRoot(r)
+			}
+		}
+	}
+	return ci
+}
+
+func (ci *closeInfo) noteRoot(r *OpRec) {
+	if r.Inv < ci.rootInv {
+		ci.rootInv = r.Inv
+	}
+	if r.Ret != 0 && r.Ret < ci.rootRet {
+		ci.rootRet = r.Ret
+	}
+}
+
+// closedFrom returns the sequence number at which Close was first invoked on
+// the scope object or on the root, and the one at which such a call first returned.
+func (ci *closeInfo) closedFrom(sv *scopeVar) (inv, ret int) {
+	inv, ret = ci.rootInv, ci.rootRet
+	if x, ok := ci.inv[sv.ptr]; ok && x < inv {
+		inv = x
+	}
+	if x, ok := ci.ret[sv.ptr]; ok && x < ret {
+		ret = x
+	}
+	return
+}
+
+// Liveness of a scope variable according to the statements of C07/C08: a scope
+// derived from a scope whose Close had already returned is inert; one derived
+// while a Close was in progress may be either.
+const (
+	live     = 0
+	maybe    = 1
+	inertVar = 2
+)
+
+func (ci *closeInfo) liveness(sv *scopeVar) int {
+	st := live
+	for v := sv; v != nil && v.parent != nil; v = v.parent {
+		inv, ret := ci.closedFrom(v.parent)
+		d := v.def
+		switch {
+		case ret < d.Inv:
+			return inertVar
+		case inv < d.Ret || d.Ret == 0:
+			st = maybe
+		}
+	}
+	return st
+}
+
+// Obligation of one recording operation.
+const (
+	required  = 0
+	optional  = 1
+	forbidden = 2
+)
+
+// obligation classifies a recording operation r on metric mv: required if it
+// completed on a live scope before any Close of that scope (or the root) was
+// invoked, forbidden if the scope is inert by the model, optional otherwise.
+func (ci *closeInfo) obligation(mv *metricVar, r *OpRec) int {
+	switch ci.liveness(mv.scope) {
+	case inertVar:
+		return forbidden
+	case maybe:
+		return optional
+	}
+	inv, _ := ci.closedFrom(mv.scope)
+	// the metric handle itself must have been obtained before the close as well
+	if r.Ret != 0 && r.Ret < inv && mv.def.Ret != 0 && mv.def.Ret < inv {
+		return required
+	}
+	return optional
+}
+
 // ledger accumulates, per identity, what must and what may be delivered.
 type ledger struct {
 	key      string
